@@ -63,16 +63,35 @@ def gen_instance(rng, kind):
         R = M[:, :r].copy()
         L = Minv.conj().T[:, :r].copy()
         return dict(R=R, L=L, herm=0, idem=1)
+    if kind in ("bi_real_R_complex_L", "bi_complex_R_real_L"):
+        # MIXED dtypes: one of the two vector sets is real (float dtype), the other complex, still
+        # biorthogonal: L = L_0 + i * (dual vectors of the complement) * C keeps L^dagger R = 1
+        d = rng.choice([3, 4, 5])
+        r = rng.choice([1, 2])
+        M = unimodular(rng, d, False)
+        Minv = np.round(np.linalg.inv(M).real)
+        assert np.allclose(Minv @ M, np.eye(d))
+        R = M[:, :r].copy()
+        dual = Minv.T
+        C = np.array([[rng.randint(-2, 2) for _ in range(r)] for _ in range(d - r)], dtype=float)
+        if not C.any():
+            C[0, 0] = 1.0
+        L = dual[:, :r] + 1j * (dual[:, r:] @ C)
+        assert np.allclose(L.conj().T @ R, np.eye(r))
+        if kind == "bi_complex_R_real_L":
+            R, L = L, R          # (R^dagger L = 1 as well)
+        return dict(R=R, L=L, herm=0, idem=1)
     if kind == "general":
         d = rng.choice([3, 4])
         r = rng.choice([1, 2])
         cx = rng.random() < 0.5
-        def rnd():
+        def rnd(cx_):
             a = np.array([[rng.randint(-2, 2) for _ in range(r)] for _ in range(d)], dtype=float)
-            if cx:
+            if cx_:
                 a = a + 1j * np.array([[rng.randint(-2, 2) for _ in range(r)] for _ in range(d)])
             return a
-        return dict(R=rnd(), L=rnd(), herm=0, idem=0)
+        mixed = rng.choice([None, None, "R", "L"]) if cx else None     # one real, one complex vector set
+        return dict(R=rnd(cx and mixed != "R"), L=rnd(cx and mixed != "L"), herm=0, idem=0)
     raise ValueError(kind)
 
 
@@ -153,7 +172,8 @@ def run(pid, tier, seed, replay=None):
         stats["transitions"] += r.generated
         mode_a = dict(spec="MC_Projector", distinct_states=r.distinct, exhaustive=True,
                       invariants=["InvDenotation", "InvLinksConsistent", "InvIdempotent"])
-    kinds = ["herm_real", "herm_complex", "bi_real", "bi_complex", "general"]
+    kinds = ["herm_real", "herm_complex", "bi_real", "bi_complex", "general", "bi_real_R_complex_L",
+             "bi_complex_R_real_L"]
     words = ["".join(w) for w in itertools.product("THC", repeat=4)]
     sessions, metas, crashes = [], {}, []
     sid = 0
